@@ -166,20 +166,20 @@ func LoadEngine(repoDir, harnessDir string) (*Engine, error) {
 // ---------- exploration ----------
 
 type PathResult struct {
-	End      pathEnd
-	Asserts  []AssertOutcome
-	Reached  map[string]bool
-	Alts     [][]uint64
-	AltModels []map[string]uint64
-	Funcs    map[*ssa.Function]bool
-	Steps    int
-	Queries  int
-	Spawned  []string
-	Sample   *ValidationSample
-	Trace    []uint64
-	OKAssert int
+	End          pathEnd
+	Asserts      []AssertOutcome
+	Reached      map[string]bool
+	Alts         [][]uint64
+	AltModels    []map[string]uint64
+	Funcs        map[*ssa.Function]bool
+	Steps        int
+	Queries      int
+	Spawned      []string
+	Sample       *ValidationSample
+	Trace        []uint64
+	OKAssert     int
 	RangeDecided int
-	Knowns   []string
+	Knowns       []string
 }
 
 type ValidationSample struct {
@@ -189,27 +189,27 @@ type ValidationSample struct {
 }
 
 type HarnessResult struct {
-	Name        string
-	Paths       int
-	Ends        map[string]int
-	EndMsgs     map[string]string
-	Violations  map[string]*AssertOutcome // label -> first counterexample
-	ViolTrace   map[string][]uint64
-	ViolCount   map[string]int
-	Inconcl     []string
-	Reached     map[string]bool
-	Funcs       map[*ssa.Function]bool
-	AssertsOK   int
-	Queries     int
-	Steps       int
-	Decisions   int
+	Name         string
+	Paths        int
+	Ends         map[string]int
+	EndMsgs      map[string]string
+	Violations   map[string]*AssertOutcome // label -> first counterexample
+	ViolTrace    map[string][]uint64
+	ViolCount    map[string]int
+	Inconcl      []string
+	Reached      map[string]bool
+	Funcs        map[*ssa.Function]bool
+	AssertsOK    int
+	Queries      int
+	Steps        int
+	Decisions    int
 	RangeDecided int
-	Spawned     map[string]bool
-	Samples     []*ValidationSample
-	Knowns      map[string]int
-	Wall        float64
-	Truncated   bool
-	SamplePaths [][]uint64
+	Spawned      map[string]bool
+	Samples      []*ValidationSample
+	Knowns       map[string]int
+	Wall         float64
+	Truncated    bool
+	SamplePaths  [][]uint64
 }
 
 func (g *Engine) newExec(s *Solver, cfg *HarnessCfg, prefix []uint64) *Exec {
